@@ -80,6 +80,11 @@ func c18Gen(c *vfCtx, emit func(c18Case)) {
 		}
 	}
 	rec(nil)
+	for _, b := range vfBigValues() {
+		doc := "k: |\n  " + strings.ReplaceAll(b, "\n", "\n  ") + "\nz: 1\n"
+		emit(c18Case{Kind: "text", Text: doc})
+		emit(c18Case{Kind: "text", Text: "# big\n---\n" + doc, Bytes: true})
+	}
 	for _, v := range []string{"map8", "struct", "slice"} {
 		emit(c18Case{Kind: "govalue", Value: v})
 	}
